@@ -420,7 +420,7 @@ def run(tier):
         "rule": "rule x context: each rule-breaking construct (unknown name; use of a name outside the block / arm / comprehension / closure / function that binds it (15 scope rules); wrong type in annotated let / reassignment / return / argument / field assignment / constructor "
         "field / const / default; reassigning, compound-assigning or field-assigning an immutable binding incl. params and outer bindings; `?` on non-Result / incompatible error; "
         "non-exhaustive match over enum/Option/Result incl. foreign-constructor, duplicate and guard-only arms; constructor with missing/duplicate/unknown field; trait adoption "
-        "without method / @requires field) in every statement, function and expression context (level 2), nested two deep and after another construct (level 3); every level-1 rule also with the offending function living in an imported module, judged on the real "
+        "without method / @requires field) in every statement, function and expression context (level 2), nested two deep and after another construct (level 3); every level-1 rule also with the offending function living in an imported module (alone, and in a diamond: types in one imported module, functions in another, the entry importing both in either order), judged on the real "
         "CLI's exit status and the file:line it reports; "
         "non-trivial = rule x context pair whose benign twin is accepted and whose offending variant is rejected with an error inside the construct",
         "samples": [{"sig": list(c[0]), "construct": c[1].encode()[c[2][0] : c[2][1]].decode()} for c in common.pick_samples(cases)],
@@ -463,31 +463,65 @@ def dependency_part(out, incan=None, skip=()):
         cases.append((sig, clean, rng, good))
     env = {"PATH": os.environ.get("PATH", ""), "RUST_LOG": "off"}
 
+    def split_blocks(text):
+        blocks, cur = [], []
+        for line in text.split("\n"):
+            if re.match(r"^(def|model|class|enum|trait|type|const|@|pub )", line) and cur and not cur[-1].startswith("@") and "".join(cur).strip():
+                blocks.append("\n".join(cur).rstrip("\n"))
+                cur = []
+            cur.append(line)
+        if "".join(cur).strip():
+            blocks.append("\n".join(cur).rstrip("\n"))
+        return blocks
+
     def run_one(job):
-        k, text = job
+        k, text, shape = job
         d = os.path.join(root, f"p{k}")
         os.makedirs(d, exist_ok=True)
         # every top-level declaration of the library is public, the entry file imports one prelude function
         lib = re.sub(r"^(def|model|class|enum|trait|type|const) ", r"pub \1 ", text, flags=re.M)
-        open(os.path.join(d, "rulelib.incn"), "w", encoding="utf-8").write(lib)
-        open(os.path.join(d, "main.incn"), "w", encoding="utf-8").write("from rulelib import takes_int\n\n\ndef main() -> None:\n    println(takes_int(1))\n")
+        if shape == "single":
+            open(os.path.join(d, "rulelib.incn"), "w", encoding="utf-8").write(lib)
+            open(os.path.join(d, "main.incn"), "w", encoding="utf-8").write("from rulelib import takes_int\n\n\ndef main() -> None:\n    println(takes_int(1))\n")
+        else:
+            # diamond: the types live in ruletypes.incn, the functions (incl. the offending one) in rulelib.incn, which imports
+            # the types; the entry file imports both, the function module first or last
+            blocks = split_blocks(lib)
+            is_fn = lambda b: re.search(r"^pub (def|async def) ", b, re.M) and not re.search(r"^pub (model|class|enum|trait|type|const) ", b, re.M)
+            types = [b for b in blocks if not is_fn(b)]
+            funcs = [b for b in blocks if is_fn(b)]
+            tnames = re.findall(r"^pub (?:model|class|enum|trait|type|const) (\w+)", "\n".join(types), re.M)
+            open(os.path.join(d, "ruletypes.incn"), "w", encoding="utf-8").write("\n\n\n".join(types) + "\n")
+            lib = "from ruletypes import " + ", ".join(tnames) + "\n\n\n" + "\n\n\n".join(funcs) + "\n"
+            open(os.path.join(d, "rulelib.incn"), "w", encoding="utf-8").write(lib)
+            lines = ["from rulelib import takes_int", "from ruletypes import Point"]
+            if shape == "diamond_types_first":
+                lines.reverse()
+            open(os.path.join(d, "main.incn"), "w", encoding="utf-8").write("\n".join(lines) + "\n\n\ndef main() -> None:\n    println(takes_int(1))\n")
         p = subprocess.run([incan, "--no-banner", "--color", "never", "--check", "main.incn"], cwd=d, env=env, capture_output=True, text=True, timeout=60)
-        return p.returncode, re.sub(r"\x1b\[[0-9;]*m", "", p.stdout + p.stderr), lib
+        files = {f: open(os.path.join(d, f), encoding="utf-8").read() for f in ("rulelib.incn", "ruletypes.incn") if os.path.exists(os.path.join(d, f))}
+        return p.returncode, re.sub(r"\x1b\[[0-9;]*m", "", p.stdout + p.stderr), files
 
+    shapes = ("single", "diamond_functions_first", "diamond_types_first")
+    base_cases = cases
+    cases = [(sig + (f"shape:{sh}",), bad, rng, good) for (sig, bad, rng, good) in base_cases for sh in shapes if sh == "single" or L not in PRELUDE]
     jobs = []
     for i, (sig, bad, rng, good) in enumerate(cases):
-        jobs.append((2 * i, bad))
-        jobs.append((2 * i + 1, good))
+        sh = sig[-1].split(":", 1)[1]
+        jobs.append((2 * i, bad, sh))
+        jobs.append((2 * i + 1, good, sh))
     with ThreadPool(common.NCPU) as pool:
         res = pool.map(run_one, jobs)
     n_ok = 0
     unusable = []
     for i, (sig, bad, rng, good) in enumerate(cases):
         (brc, btext, blib), (grc, gtext, _) = res[2 * i], res[2 * i + 1]
+        shape = sig[-1]
+        sig = sig[:-1] if shape == "shape:single" else (sig[0] + "@" + shape,) + sig[1:-1]
         if grc != 0:
             unusable.append(sig[0])  # the benign twin is not accepted as a library on this tree: position unusable
             continue
-        case = {"sig": list(sig) + ["in-dependency-module"], "src": blib, "main": "from rulelib import takes_int ...", "construct": bad.encode()[rng[0] : rng[1]].decode(), "cli_output": btext[-600:], "exit": brc}
+        case = {"sig": list(sig) + ["in-dependency-module"], "src": "\n".join(f"# --- {k}\n{v}" for k, v in blib.items()), "main": "from rulelib import takes_int ...", "construct": bad.encode()[rng[0] : rng[1]].decode(), "cli_output": btext[-600:], "exit": brc}
         if brc == 0:
             out.fail(f"dep-module|{sig[0]}|accepted", {**case, "kind": "accepted"})
             continue
@@ -495,10 +529,25 @@ def dependency_part(out, incan=None, skip=()):
             out.fail(f"dep-module|{sig[0]}|abnormal-exit", {**case, "kind": f"exit {brc}"})
             continue
         # location: rulelib.incn:<line>:<col> of some error must fall on a line of the construct (pub prefixes do not add lines)
-        first = bad.encode()[: rng[0]].decode().count("\n") + 1
-        last = bad.encode()[: rng[1]].decode().count("\n") + 1
+        construct = bad.encode()[rng[0] : rng[1]].decode()
+        pub_construct = re.sub(r"^(def|model|class|enum|trait|type|const) ", r"pub \1 ", construct, flags=re.M)
+        # locate the construct's first line in the generated files by its text (pub prefixes aside), same occurrence
+        strip_pub = lambda t: re.sub(r"^pub ", "", t)
+        bad_lines = bad.split("\n")
+        l0 = bad.encode()[: rng[0]].decode().count("\n")
+        line_text = strip_pub(bad_lines[l0])
+        nth = sum(1 for t in bad_lines[:l0] if strip_pub(t) == line_text)
+        where = None
+        for fname, ftext in blib.items():
+            hits = [k for k, t in enumerate(ftext.split("\n")) if strip_pub(t) == line_text]
+            if hits and where is None:
+                where = (fname, hits[min(nth, len(hits) - 1)] + 1)
+        if where is None:
+            raise common.MachineryError(f"construct of {sig} not found in the generated library files")
+        target_file, first = where
+        last = first + construct.count("\n")
         locs = [(f, int(l)) for f, l in re.findall(r"--> (\S+?):(\d+):\d+", btext)]
-        if not any(f.endswith("rulelib.incn") and first <= l <= last for f, l in locs):
+        if not any(f.endswith(target_file) and first <= l <= last for f, l in locs):
             out.fail(f"dep-module|{sig[0]}|rejected-but-not-located-in-the-dependency", {**case, "kind": "location", "locations": locs, "construct_lines": [first, last]})
         else:
             n_ok += 1
